@@ -1,1 +1,67 @@
-int main(){return 0;}
+// REPLAY adapter for unit json_string: feeds the verifier's input to the REAL JsonParser::_parseString (private, reached with
+// -fno-access-control) and to the public Json::parse, and evaluates the contract clauses natively against a reference decoder
+// written from RFC 8259 section 7 / RFC 3629. The text lives in an exact-size heap block so that ASan sees any read past its end.
+#include "iora/parsers/json.hpp"
+#include "replay_io.h"
+#include <cstring>
+using namespace iora::parsers;
+static bool isHex(char c) { return (c >= '0' && c <= '9') || (c >= 'a' && c <= 'f') || (c >= 'A' && c <= 'F'); }
+static unsigned hexv(char c) { return c <= '9' ? c - '0' : (c >= 'a' ? c - 'a' + 10 : c - 'A' + 10); }
+static bool hex4(const std::string &t, size_t i, unsigned &v) { if (i + 4 > t.size()) return false; v = 0; for (int k = 0; k < 4; k++) { if (!isHex(t[i + k])) return false; v = v * 16 + hexv(t[i + k]); } return true; }
+static void utf8(std::string &o, unsigned cp) {
+  if (cp < 0x80) o += (char)cp; else if (cp < 0x800) { o += (char)(0xC0 | (cp >> 6)); o += (char)(0x80 | (cp & 0x3F)); }
+  else if (cp < 0x10000) { o += (char)(0xE0 | (cp >> 12)); o += (char)(0x80 | ((cp >> 6) & 0x3F)); o += (char)(0x80 | (cp & 0x3F)); }
+  else { o += (char)(0xF0 | (cp >> 18)); o += (char)(0x80 | ((cp >> 12) & 0x3F)); o += (char)(0x80 | ((cp >> 6) & 0x3F)); o += (char)(0x80 | (cp & 0x3F)); } }
+// reference: decode the string starting at t[0]; returns 1 = complete valid string (end = index after the closing quote),
+// 0 = not a valid string, 2 = contains an unpaired surrogate (RFC 8259 8.2: result left open)
+static int refDecode(const std::string &t, std::string &out, size_t &end) {
+  if (t.empty() || t[0] != '"') return 0;
+  size_t i = 1;
+  while (i < t.size() && t[i] != '"') {
+    if (t[i] != '\\') { out += t[i++]; continue; }
+    if (i + 1 >= t.size()) return 0;
+    char c = t[i + 1]; const char *two = "\"\\/bfnrt"; const char *val = "\"\\/\b\f\n\r\t";
+    if (const char *f = c ? strchr(two, c) : nullptr) { out += val[f - two]; i += 2; continue; }
+    unsigned u, lo;
+    if (c != 'u' || !hex4(t, i + 2, u)) return 0;
+    if (u >= 0xD800 && u <= 0xDBFF && i + 7 < t.size() && t[i + 6] == '\\' && t[i + 7] == 'u' && hex4(t, i + 8, lo) && lo >= 0xDC00 && lo <= 0xDFFF)
+    { utf8(out, 0x10000 + ((u - 0xD800) << 10) + (lo - 0xDC00)); i += 12; continue; }
+    if (u >= 0xD800 && u <= 0xDFFF) return 2;
+    utf8(out, u); i += 6;
+  }
+  if (i >= t.size()) return 0;
+  end = i + 1; return 1;
+}
+int main(int argc, char **argv) {
+  auto in = replay_io::load(argv[1]);
+  std::vector<uint8_t> d = replay_io::bytes(in["IN"]);
+  size_t n = in.count("IN_N") ? replay_io::u64(in["IN_N"]) : d.size();
+  d.resize(n, 0);
+  char *buf = (char *)malloc(n); if (n) memcpy(buf, d.data(), n);
+  std::string t(n ? buf : "", n);
+  std::string want; size_t end = 0; int ref = refDecode(t, want, end);
+  { // the function under contract, from offset 0 (precondition _pos <= n)
+    JsonParser p(std::string_view(buf, n), ParseLimits{}); Json o; bool ok = p._parseString(o);
+    if (p._pos > n) replay_io::fail("P1/S0a cursor outside the text after _parseString: _pos=" + std::to_string(p._pos) + " n=" + std::to_string(n));
+    if (!ok && p._error.empty()) replay_io::fail("P5 failure without error");
+    if (ref == 1) {
+      if (!ok) replay_io::fail("S valid RFC 8259 string rejected: " + p._error);
+      if (p._pos != end) replay_io::fail("S cursor not after the closing quote");
+      if (!o.isString() || o.getString() != want) replay_io::fail("S3/S4 decoded bytes differ from the reference decoder (RFC 8259 section 7 / UTF-8)");
+    } }
+  { // public API on the same bytes: error offset inside the input; a valid string document decodes to the reference value
+    ParseResult r = Json::parse(std::string_view(buf, n), ParseLimits{});
+    if (!r.ok && r.error.where.offset > n) replay_io::fail("J2 reported error offset " + std::to_string(r.error.where.offset) + " outside the " + std::to_string(n) + "-byte input");
+    if (ref == 1 && end == n && (!r.ok || !r.value.isString() || r.value.getString() != want)) replay_io::fail("J1 Json::parse value differs from the reference decoder");
+    if (r.ok && r.value.isString()) { // serialise -> parse round trip
+      std::string dumped = r.value.dump(); ParseResult r2 = Json::parse(std::string_view(dumped), ParseLimits{});
+      if (!r2.ok || !r2.value.isString() || r2.value.getString() != r.value.getString()) replay_io::fail("round trip parse(dump(v)) != v"); } }
+  { // the same bytes in member-name position: `{` + text  (call site _parseObject -> _parseString, J4)
+    size_t m = n + 1; char *b2 = (char *)malloc(m); b2[0] = '{'; if (n) memcpy(b2 + 1, buf, n);
+    ParseResult r = Json::parse(std::string_view(b2, m), ParseLimits{});
+    if (!r.ok && r.error.where.offset > m) replay_io::fail("J2 reported error offset outside the input (object key position)");
+    free(b2); }
+  free(buf);
+  replay_io::ok("contract clauses hold on this input");
+  return 0;
+}
